@@ -49,9 +49,11 @@ def scratch(name: str = "") -> Path:
         _scratch_root = Path(tempfile.mkdtemp(prefix="eudoxia-verif-", dir=base))
         import atexit
         atexit.register(lambda: shutil.rmtree(_scratch_root, ignore_errors=True))
-    d = _scratch_root / (name or f"d{len(list(_scratch_root.iterdir()))}")
-    d.mkdir(parents=True, exist_ok=True)
-    return d
+    if name:
+        d = _scratch_root / name
+        d.mkdir(parents=True, exist_ok=True)
+        return d
+    return Path(tempfile.mkdtemp(prefix="d", dir=_scratch_root))
 
 
 def import_repo():
